@@ -4,6 +4,7 @@ package sugardb
 
 import (
 	"context"
+	"io"
 	"net"
 	"strconv"
 	"time"
@@ -17,10 +18,24 @@ import (
 type fakeConn struct {
 	written []byte
 	closed  bool
+	input   [][]byte // successive results of Read; then io.EOF
+	pos     int
+	writes  int
 }
 
-func (c *fakeConn) Read(b []byte) (int, error)         { return 0, nil }
-func (c *fakeConn) Write(b []byte) (int, error)        { c.written = append(c.written, b...); return len(b), nil }
+func (c *fakeConn) Read(b []byte) (int, error) {
+	if c.pos < len(c.input) {
+		n := copy(b, c.input[c.pos])
+		c.pos++
+		return n, nil
+	}
+	return 0, io.EOF
+}
+func (c *fakeConn) Write(b []byte) (int, error) {
+	c.written = append(c.written, b...)
+	c.writes++
+	return len(b), nil
+}
 func (c *fakeConn) Close() error                       { c.closed = true; return nil }
 func (c *fakeConn) LocalAddr() net.Addr                { return nil }
 func (c *fakeConn) RemoteAddr() net.Addr               { return nil }
